@@ -88,6 +88,9 @@ pub enum Intent {
     WaitPolls(u64),
     /// any other command line, sent only while no bestmove is outstanding (e.g. `bench`)
     Raw(String),
+    /// a command line sent at once, whether or not a search is running (only for commands that are
+    /// not part of C05's quantifier, e.g. `bench` during a search)
+    RawNow(String),
     Quit,
 }
 
